@@ -285,7 +285,7 @@ var StructTypes = []reflect.Type{
 	T(CN1{}), T(CN2{}), T(NMapHolder{}),
 	T(ManyF{}), T(ManyL{}),
 	T(Node{}), T(FNode{}), T(Ping{}), T(Pong{}), T(ENode{}), T(DeepNil{}),
-	T(MapAndLists{}), T(Wrap{}), T(WrapList{}), T(PtrTime{}), T(Named{}), T(SelfAny{}), T(SelfAnyList{}), T(PtrConts{}), T(MutA{}), T(MutB{}), T(MpKeyStruct{}), T(MutGraph{}), T(NonASCII{}),
+	T(MapAndLists{}), T(Wrap{}), T(WrapList{}), T(PtrTime{}), T(Named{}), T(SelfAny{}), T(SelfAnyList{}), T(PtrConts{}), T(MutA{}), T(MutB{}), T(MpKeyStruct{}), T(MutGraph{}), T(NonASCII{}), T(RecConts{}),
 }
 
 // TypeByName finds a zoo struct type.
@@ -559,4 +559,11 @@ type NonASCII struct {
 	Naïve  string
 	Zażółć []string
 	Name日本 *Inner
+}
+
+// RecConts: recursive container types as struct fields.
+type RecConts struct {
+	T Tree
+	J JMap
+	N int32
 }
